@@ -85,3 +85,71 @@ func macCommandReuse(r *engine.Run) {
 		c.Outcome("maccommand/reuse/compared")
 	})
 }
+
+// registryChangeGaps: long registration histories. Between two decodes the registration of one CID is
+// changed g times, for g = 2^k - 1, 2^k, 2^k + 1 (k = 0..17 quick, 0..20 thorough): whatever the decoder
+// remembers about the registry (a generation counter of some width, a copy) is current again after any
+// number of changes. One worker; the registry is reset before and after.
+func registryChangeGaps(r *engine.Run) {
+	maxK := uint(17)
+	if r.Thorough() {
+		maxK = 20
+	}
+	var gaps []int
+	for k := uint(0); k <= maxK; k++ {
+		for _, d := range []int{-1, 0, 1} {
+			if g := 1<<k + d; g >= 1 {
+				gaps = append(gaps, g)
+			}
+		}
+	}
+	r.PartWorkers("registry/change-gaps", []string{fmt.Sprintf("gap between decodes:%d values 1..2^%d+1", len(gaps), maxK), "direction:2"}, 2, 1, func(c *engine.Case) {
+		uplink := c.Index == 1
+		const cid = 0x90
+		lorawan.VerifRegistryReset()
+		defer lorawan.VerifRegistryReset()
+		mt := lorawan.UnconfirmedDataDown
+		if uplink {
+			mt = lorawan.UnconfirmedDataUp
+		}
+		check := func(size int, after string) bool {
+			c.Eval()
+			stream := append(append([]byte{cid}, fillBytes(size, 0x80)...), spec.Example(uplink, 0x02).Bytes()...)
+			want, _ := spec.FrameCmds(uplink, stream, func(b byte) int {
+				if b == cid {
+					return size
+				}
+				return 0
+			})
+			p := lorawan.PHYPayload{MHDR: lorawan.MHDR{MType: mt}, MACPayload: &lorawan.MACPayload{FHDR: lorawan.FHDR{FOpts: []lorawan.Payload{&lorawan.DataPayload{Bytes: stream}}}}}
+			if err := p.DecodeFOptsToMACCommands(); err != nil {
+				c.Fail("registry/change-gaps/framing-error", fmt.Sprintf("%s: stream %x (registered size %d, uplink=%v): %v", after, stream, size, uplink, err), nil)
+				return false
+			}
+			if msg := sameCmds(uplink, p.MACPayload.(*lorawan.MACPayload).FHDR.FOpts, want); msg != "" {
+				c.Fail("registry/change-gaps/framing-differs-from-model", fmt.Sprintf("%s: stream %x is not framed with the registered size %d (uplink=%v): %s", after, stream, size, uplink, msg), nil)
+				return false
+			}
+			return true
+		}
+		size := 2
+		if err := lorawan.RegisterProprietaryMACCommand(uplink, cid, size); err != nil || !check(size, "after the first registration") {
+			return
+		}
+		for _, g := range gaps {
+			for i := 0; i < g-1; i++ {
+				lorawan.RegisterProprietaryMACCommand(uplink, cid, 7)
+			}
+			size = 5 - size // 2 <-> 3
+			if err := lorawan.RegisterProprietaryMACCommand(uplink, cid, size); err != nil {
+				c.Fail("registry/change-gaps/registration-refused", err.Error(), nil)
+				return
+			}
+			if !check(size, fmt.Sprintf("after %d changes of the registration since the last decode", g)) {
+				return
+			}
+		}
+		c.NonTrivial()
+		c.Outcome("registry/change-gaps/completed")
+	})
+}
